@@ -13,7 +13,7 @@
     appended while the writer's file was unlinked and the entries of deleted log
     files that were in no segment directory at deletion time. *)
 From Coq Require Import NArith List.
-From Snel Require Import Model.Shard Proofs.ShardC01Proofs.
+From Snel Require Import Model.Shard Proofs.ShardC01Proofs Proofs.ShardC01RestartProofs.
 Import ListNotations.
 Open Scope N_scope.
 
@@ -193,3 +193,84 @@ Theorem C01_count_covers_durable : forall c ls u,
   len (select (restart (crash (run (init c) ls))) u) <= count (restart (crash (run (init c) ls))) u.
 Proof. exact count_covers_durable. Qed.
 Print Assumptions C01_count_covers_durable.
+
+(** * 5. Kill of the quiescent process + restart keeps the lockstep
+
+    [quiescentb s]: no flush job queued or running, WAL queue drained, no rotation due
+    ([wcnt s < cap s]), the writer's file not unlinked, at most [level_span] level-0
+    segments.  [lockstep_q s ls]: no [LFlushCmd]; [LCrash] only in a quiescent state and
+    immediately followed by [LRestart]; [LRestart] only directly after [LCrash]; inside a
+    lifetime the WAL thread's program order and "WAL idle at every log-file deletion";
+    plain [run], no compaction.  ([lockq_inv]: the lockstep invariant of
+    Proofs/ShardC01Proofs.v extended by: nothing pruned or unlinked, log-file ids strictly
+    increasing and not below the number of pruned segments, the current log file holds
+    exactly the durable events of the current rotation, the memtable exactly the stored ones.) *)
+
+(** A kill + restart in a quiescent reachable state: same next segment id, same log-file id,
+    same entry counter, and that counter is the fill level of the recovered memtable (which
+    is the old memtable); same files and directories; the invariant holds again. *)
+Theorem C01_quiescent_restart_keeps_lockstep : forall c ls, 0 < c ->
+  lockstep_q (init c) ls = true -> quiescentb (run (init c) ls) = true ->
+  let s := run (init c) ls in
+  let s' := restart (crash s) in
+  alloc0 s' = alloc0 s /\ wcur s' = wcur s /\ wcnt s' = wcnt s /\ mem s' = mem s /\
+  wcnt s' = len (mem s') /\ wcur s' = alloc0 s' /\
+  walfiles s' = walfiles s /\ dirs s' = dirs s /\ wlost s' = [] /\ wunlinked s' = false /\
+  lockq_inv c (stored ls) (durable ls) s'.
+Proof. exact quiescent_restart_keeps_lockstep. Qed.
+Print Assumptions C01_quiescent_restart_keeps_lockstep.
+
+(** The invariant form, for any state (reachable or not) that satisfies it. *)
+Theorem C01_quiescent_restart_preserves_inv : forall c P D s, 0 < c ->
+  lockq_inv c P D s -> quiescentb s = true -> lockq_inv c P D (restart (crash s)).
+Proof. exact quiescent_restart_preserves_inv. Qed.
+Print Assumptions C01_quiescent_restart_preserves_inv.
+
+(** Throughout such a history nothing is pruned or unlinked, WAL file [wcur] holds exactly the
+    durable events from position [wcur * c] on, the memtable exactly the stored events from
+    position [alloc0 * c] on. *)
+Theorem C01_lockstep_q_no_prune : forall c ls, 0 < c -> lockstep_q (init c) ls = true ->
+  let s := run (init c) ls in
+  wlost s = [] /\ wunlinked s = false /\
+  len (durable ls) = wcur s * c + wcnt s /\ len (stored ls) = alloc0 s * c + len (mem s) /\
+  wcnt s <= c /\ len (mem s) < c /\
+  wal_get (walfiles s) (wcur s) = drop (wcur s * c) (durable ls) /\
+  mem s = drop (alloc0 s * c) (stored ls).
+Proof. exact lockstep_q_no_prune. Qed.
+Print Assumptions C01_lockstep_q_no_prune.
+
+(** Whenever no flush job exists and the WAL queue is drained: log-file id = next segment id,
+    entry counter = memtable fill level (so [wcnt < cap] in [quiescentb] is implied). *)
+Theorem C01_quiet_state_lockstep : forall c ls, 0 < c -> lockstep_q (init c) ls = true ->
+  let s := run (init c) ls in
+  jobs s = [] -> walq s = [] ->
+  wcur s = alloc0 s /\ wcnt s = len (mem s) /\ wcnt s < c.
+Proof. exact quiet_state_lockstep. Qed.
+Print Assumptions C01_quiet_state_lockstep.
+
+(** Every durable event is read exactly once after any number of quiescent kill/restart
+    cycles interleaved with stores and background flushes; nothing is pruned or unlinked. *)
+Theorem C01_exactly_once_across_quiescent_restarts : forall c ls e, 0 < c ->
+  lockstep_q (init c) ls = true -> NoDup (map ek (stored ls)) -> In e (durable ls) ->
+  occ e (select (restart (crash (run (init c) ls))) (euid e)) = 1%nat /\
+  occ e (select (restart (run (init c) ls)) (euid e)) = 1%nat /\
+  wlost (run (init c) ls) = [] /\ wunlinked (run (init c) ls) = false.
+Proof. exact exactly_once_across_quiescent_restarts. Qed.
+Print Assumptions C01_exactly_once_across_quiescent_restarts.
+
+(** Corners.  A kill while a flush job is queued (WAL drained, but not quiescent) resets the
+    allocator and recovers a full memtable: the relations above fail. *)
+Theorem C01_nonquiescent_restart_refuted :
+  exists c ls, 0 < c /\ lockstep_q (init c) ls = true /\
+    let s := run (init c) ls in
+    quiescentb s = false /\ walq s = [] /\
+    (alloc0 (restart (crash s)) <> alloc0 s /\ mem (restart (crash s)) <> mem s /\
+     ~ (len (mem (restart (crash s))) < c)).
+Proof. exact nonquiescent_restart_refuted. Qed.
+Print Assumptions C01_nonquiescent_restart_refuted.
+
+(** [alloc0_from] ignores ids outside the level-0 band, hence the bound in [quiescentb]. *)
+Theorem C01_alloc0_outside_band_refuted :
+  exists ids a, (forall i, In i ids -> i < a) /\ In (a - 1) ids /\ alloc0_from ids <> a.
+Proof. exact alloc0_outside_band_refuted. Qed.
+Print Assumptions C01_alloc0_outside_band_refuted.
